@@ -20,6 +20,6 @@ Your task: make a SMALL, realistic change to the project's non-test source code 
 {hint}
 Then write a demonstration: a small Rust test (put it in a NEW file, e.g. a new `#[cfg(test)] mod` file included from the touched crate, or a new file under `<crate>/tests/`) that uses the crate's API to show the property violated: it must FAIL with your change and PASS without it (verify both by saving your source change as a diff and using `git apply` / `git apply -R` - do NOT use `git stash`: the stash is shared between all worktrees of this repository and other people work in sibling worktrees). Crate-private items are reachable from an in-crate `#[cfg(test)]` module.
 
-Practicalities: offline sandbox (no network; `--offline` for cargo). To save build time use `export CARGO_TARGET_DIR=/tmp/mut_target` for every cargo command (a shared, pre-warmed target dir; cargo may wait a few seconds for its lock). The machine is busy: prefer `cargo test -p <crate> --offline <filter>` over whole-workspace runs. Do not edit existing tests. Do not use cfg tricks, feature flags, environment variables or time bombs; the change must be ordinary code.
+Practicalities: offline sandbox (no network; `--offline` for cargo). To save build time use `export CARGO_TARGET_DIR=/tmp/mut_target` for every cargo command (a shared, pre-warmed target dir; cargo may wait a few seconds for its lock). CAUTION: sibling worktrees share that directory and cargo's freshness check is mtime based, so before EVERY cargo invocation run `find . -name '*.rs' -path '*/src/*' -newer Cargo.lock -o -name '*.rs' -path '*/src/*' | xargs touch` (i.e. touch all sources of your worktree) and make sure the output shows `Compiling <crate> (/tmp/mut/...your worktree...)` - otherwise you are running someone else's stale build. The machine is busy: prefer `cargo test -p <crate> --offline <filter>` over whole-workspace runs. Do not edit existing tests. Do not use cfg tricks, feature flags, environment variables or time bombs; the change must be ordinary code.
 
 Deliver in {wt}/MUT/ : `patch.diff` (output of `git diff` for the SOURCE change only, without the demo test), `demo.diff` (git diff adding only the demonstration test), and `meta.json` with keys: "summary" (one sentence: what you changed), "needs" (what specific input/state/sequence makes it manifest), "files" (touched source files), "demo_cmd" (exact cargo command that runs the demo), "suite_cmd" (the cargo test command you used for (b)) and "suite_result" (its pass/fail counts before and after). Finish by replying with the contents of meta.json and a 5-line explanation. If after honest effort you cannot find a change that satisfies (a)-(c), say so and explain why.""")
